@@ -181,9 +181,23 @@ func firstRead(p []int) int {
 	return -1
 }
 
+// retryMiddleware invokes the rest of the chain twice for requests marked "retry-" (as the README's
+// retry middleware does after a failure). Those requests themselves are not judged; they are there
+// because whatever per-request state the server keeps must survive being set up / torn down twice.
+func retryMiddleware(next kmipserver.Next, ctx context.Context, msg *kmip.RequestMessage) (*kmip.ResponseMessage, error) {
+	if len(msg.BatchItem) > 0 && strings.HasPrefix(string(msg.BatchItem[0].UniqueBatchItemID), "R") {
+		next(ctx, msg)
+	}
+	return next(ctx, msg)
+}
+
 func direct(c *core.Ctx, r *core.Rand, i int) {
 	m := &monitor{}
 	ex := executor(m)
+	withRetry := i%2 == 1
+	if withRetry {
+		ex.Use(retryMiddleware)
+	}
 	N := 2 + r.Intn(63)
 	var wg sync.WaitGroup
 	start := make(chan struct{})
@@ -196,10 +210,19 @@ func direct(c *core.Ctx, r *core.Rand, i int) {
 			for k := 0; k < 3; k++ {
 				reqID := fmt.Sprintf("d%d-g%d-%d", i, g, k)
 				prog := program(rr)
+				req := build(reqID, prog)
+				retried := withRetry && rr.P(1, 4)
+				if retried {
+					req.BatchItem[0].UniqueBatchItemID = []byte("R")
+					c.Count("retried_requests", 1)
+				}
 				var resp *kmip.ResponseMessage
-				if p, pv, st := core.Guard(func() { resp = ex.HandleRequest(context.Background(), build(reqID, prog)) }); p {
+				if p, pv, st := core.Guard(func() { resp = ex.HandleRequest(context.Background(), req) }); p {
 					c.Violation(core.PanicSig(pv, st), fmt.Sprintf("HandleRequest panicked: %v", pv), map[string]any{"stack": st})
 					return
+				}
+				if retried {
+					continue
 				}
 				judge(c, reqID, prog, resp, "direct")
 				c.Distinct(core.Hash64(progString(prog)))
@@ -265,10 +288,10 @@ func Spec() *core.Spec {
 		ID:    "C15",
 		Level: "exploration",
 		Race:  true,
-		Rule: "seeded programs of 1-8 batch items over {set (value = request id + item index), read, fail, noop}; 2-64 goroutines issuing requests through BatchExecutor.HandleRequest at once (handlers yield so that items of different requests interleave) and 1-16 real server connections each sending a sequence of 6 requests; " +
+		Rule: "seeded programs of 1-8 batch items over {set (value = request id + item index), read, fail, noop}; 2-64 goroutines issuing requests through BatchExecutor.HandleRequest at once (handlers yield so that items of different requests interleave; in half of the rounds a retry middleware runs the chain twice for a quarter of the requests) and 1-16 real server connections each sending a sequence of 6 requests; " +
 			"every read is checked against a per-request sequential register model starting empty; any value carrying another request's id is a leak, identified exactly; race reports whose stacks are the placeholder accessors are violations. distinct = distinct programs",
 		Assumptions: []string{"after a failed item both the previous value and the empty value are accepted (the statement is silent on clearing)"},
-		Required:    []string{"requests.direct", "requests.wire", "reads", "handler_overlaps", "connections"},
+		Required:    []string{"requests.direct", "requests.wire", "reads", "handler_overlaps", "connections", "retried_requests"},
 		RaceVerdict: func(r core.RaceReport) (string, bool) {
 			for _, st := range r.Frames {
 				for _, f := range st {
